@@ -78,7 +78,13 @@ pub fn skip_whitespace(input: &mut LineReader) {
         let next = input.reader.request_byte_at_offset(offset);
         match next {
             Some(b' ') => (),
-            Some(b'\n') => input.line_at_offset(offset + 1),
+            Some(b'\n') => {
+                // Consume each line end right away, so that blank lines do not pile up in the buffer
+                input.line_at_offset(offset + 1);
+                input.reader.advance(offset + 1);
+                offset = 0;
+                continue;
+            }
             _ => break,
         }
         offset += 1;
